@@ -49,6 +49,4 @@ def run(ctx):
                         '(dynamic keys on both sides) reconstitutes a network']
     ctx.not_decided += ['exact float/array round trip through HDF5',
                         'completeness of the sklearn attribute sweep (depends on sklearn '
-                        'internals; the writer swallows TypeError/ValueError per attribute)',
-                        'Union.block is not persisted (read by split only, outside the '
-                        'observation interface of the property)']
+                        'internals; the writer skips attributes HDF5 cannot store)']
